@@ -5,6 +5,7 @@ package main
 import (
 	"fmt"
 	"math"
+	"strconv"
 	"strings"
 )
 
@@ -199,6 +200,32 @@ func casesC01(g *Gen) []*Case {
 	for s, want := range lits {
 		c := evalCase("literal_spellings", s, sc.data)
 		c.Oracle = expectOut(want)
+		cs = append(cs, c)
+	}
+	// a float literal denotes the double closest to its decimal text, however many digits it has
+	for _, d := range []int{1, 2, 5, 10, 15, 16, 17, 18, 20, 21, 22, 23, 24, 25, 26, 30, 40, 100, 300, 307, 308, 309, 315, 320, 323, 324, 325, 330} {
+		for _, sig := range []string{"1", "49", "5", "25", "123456789", "9007199254740993", "17976931348623157", "2225073858507201", "4940656458412465"} {
+			if len(sig) > d {
+				continue
+			}
+			for _, ip := range []string{"0", "1", "123"} {
+				lit := ip + "." + strings.Repeat("0", d-len(sig)) + sig
+				v, err := strconv.ParseFloat(lit, 64)
+				if err != nil {
+					continue
+				}
+				c := evalCase("float_literal_digits", "{{ "+lit+".str() }}|{{ "+lit+" == "+lit+" }}|{{ ("+lit+" * 2.0).str() }}", nil)
+				c.Oracle = expectOut(strconv.FormatFloat(v, 'f', -1, 64) + "|1|" + strconv.FormatFloat(v*2, 'f', -1, 64))
+				cs = append(cs, c)
+			}
+		}
+	}
+	// whole floats at and beyond the integer range, negative zero
+	for _, lit := range []string{"9223372036854775807.0", "9223372036854775808.0", "9223372036854777856.0", "18446744073709551616.0", "9007199254740992.0", "9007199254740993.0",
+		"4611686018427387904.0", "123456789012345680000.0", "1000000000000000000000.0", "999999999999999900000.0", "100000000000000000000000.0", "0.0"} {
+		v, _ := strconv.ParseFloat(lit, 64)
+		c := evalCase("float_literal_digits", "{{ "+lit+".str() }}|{{ (0.0 - "+lit+").str() }}|{{ (-"+lit+").str() }}", nil)
+		c.Oracle = expectOut(strconv.FormatFloat(v, 'f', -1, 64) + "|" + strconv.FormatFloat(0-v, 'f', -1, 64) + "|" + strconv.FormatFloat(-v, 'f', -1, 64))
 		cs = append(cs, c)
 	}
 	// float comparisons with NaN and infinities from the data and from arithmetic
